@@ -300,3 +300,94 @@ uncommon = Contract('ThresholdCounter.get_uncommon_count', setup=lambda eng, st:
                     modifies=NO_MOD)
 CONTRACTS['ThresholdCounter.get_common_count'] = common
 CONTRACTS['ThresholdCounter.get_uncommon_count'] = uncommon
+
+
+# ---- iterkeys / itervalues / iteritems / keys / values: every tracked key exactly once, with its tracked count -------------------
+ValArrT = z3.ArraySort(z3.IntSort(), Val)
+IntArrT = z3.ArraySort(z3.IntSort(), z3.IntSort())
+KeyList = HeapClass('TCKeyList', 'list', e=VAL)
+CountList = HeapClass('TCCountList', 'list', e=INT)
+ALL += [KeyList, CountList]
+
+
+def gen_setup(kind):
+    def setup(eng, st, variant=None):
+        st.ghost['out_n'] = z3.IntVal(0)
+        if kind in ('keys', 'items'):
+            st.ghost['out_0'] = z3.Const('tc_out0_init', ValArrT)
+        if kind == 'values':
+            st.ghost['out_0'] = z3.Const('tc_out0_init', IntArrT)
+        if kind == 'items':
+            st.ghost['out_1'] = z3.Const('tc_out1_init', IntArrT)
+        st.ghost['outkey'] = z3.Const('tc_outkey_init', ValArrT)       # the key behind the m-th yielded item (for itervalues)
+        return dict(self=setup_self(eng, st))
+    return setup
+
+
+def gen_facts(c, kind, upto, seq=None):
+    p = parts(c)
+    n, ok = c.g('out_n'), c.g('outkey')
+    m, m2 = z3.Ints('m m2')
+    km = z3.Select(ok, m)
+    cnt = z3.Select(p['c0'], z3.Select(p['val'], km))
+    item = z3.Select(p['dom'], km)
+    if kind in ('keys', 'items'):
+        item = z3.And(item, z3.Select(c.g('out_0'), m) == km)
+    if kind == 'values':
+        item = z3.And(item, z3.Select(c.g('out_0'), m) == cnt)
+    if kind == 'items':
+        item = z3.And(item, z3.Select(c.g('out_1'), m) == cnt)
+    if seq is not None:
+        item = z3.And(item, km == z3.Select(seq['keys'], m))
+    return [('one item per iteration step', n == upto),
+            ('item m belongs to a tracked key and carries its tracked count', z3.ForAll([m], z3.Implies(z3.And(0 <= m, m < n), item))),
+            ('no key is yielded twice', z3.ForAll([m, m2], z3.Implies(z3.And(0 <= m, m < m2, m2 < n), z3.Select(ok, m) != z3.Select(ok, m2))))]
+
+
+def gen_hint(kind):
+    def hint(c, event, data):
+        if event != 'yield':
+            return []
+        return [('ghost', 'outkey', z3.Store(c.g('outkey'), c.g('out_n'), c.L('k')))]
+    return hint
+
+
+def gen_contract(name, kind):
+    con = Contract('ThresholdCounter.' + name, setup=gen_setup(kind), requires=reader_requires,
+                   ensures=lambda c: gen_facts(c, kind, parts(c)['size']) + [('nothing is modified', z3.BoolVal(True))], modifies=NO_MOD,
+                   loops={0: Loop(lambda c: gen_facts(c, kind, c.x['i'], c.x['seq']), heap=[], ghost=['outkey'])},
+                   generator=True, hints=gen_hint(kind), local_types=dict(count_map=REF(CountMap)))
+    con.yields = 2 if kind == 'items' else 1
+    return con
+
+
+iterkeys_c = None          # iterkeys() returns iter(dict): not a generator function, keys() is verified against the dict directly
+itervalues_c = gen_contract('itervalues', 'values')
+iteritems_c = gen_contract('iteritems', 'items')
+for _c in [itervalues_c, iteritems_c]:
+    CONTRACTS[_c.qualname] = _c
+
+
+def values_setup(eng, st, variant=None):
+    eng.list_class = CountList
+    return dict(self=setup_self(eng, st))
+
+
+def values_ensures(c):
+    r = c.result
+    if not isinstance(r, SRef):
+        return [('returns a list', z3.BoolVal(False))]
+    p = parts(c)
+    m, m2 = z3.Ints('m m2')
+    ok = c.g('$gen:itervalues:outkey')
+    km = z3.Select(ok, m)
+    return [('values() = the tracked count of every tracked key, each key once', z3.And(
+        c.f(r, 'len') == p['size'], r.t >= c.old.alloc,
+        z3.ForAll([m], z3.Implies(z3.And(0 <= m, m < p['size']), z3.And(
+            z3.Select(p['dom'], km), z3.Select(c.f(r, 'elems'), m) == z3.Select(p['c0'], z3.Select(p['val'], km))))),
+        z3.ForAll([m, m2], z3.Implies(z3.And(0 <= m, m < m2, m2 < p['size']), z3.Select(ok, m) != z3.Select(ok, m2)))))]
+
+
+values_c = Contract('ThresholdCounter.values', setup=values_setup, requires=reader_requires, ensures=values_ensures,
+                    modifies=lambda c: [('TCCountList', 'elems'), ('TCCountList', 'len')])
+CONTRACTS['ThresholdCounter.values'] = values_c
